@@ -9,6 +9,15 @@ a class attribute, a literal and `0.25 * 2` are all the same fact 1/2):
   elseState   the member assigned in the final `else`
   debtWeight  the VALUE of K in `ratio -= (<debt> / <capacity>) * K` (or K * (...), or `ratio = ratio - …`)
 
+  updGuards   (g1, g2): is the division `total_current / total_capacity` only executed when the capacity is known to be
+              non-zero, and is the division of the debt term only executed when it is known to be positive/non-zero?  Read
+              off the `if` tests that enclose each true division by the capacity variable (body of `if cap > 0` /
+              `cap != 0` / `cap` / a conjunction containing one of these; else-branch of `if cap == 0` / `not cap` /
+              `cap <= 0`).  A division whose guard is not recognised counts as unguarded (fail closed).
+  consoleFailuresEscape   EVALUATED on the real class: loud stores (silent=False) run a script that reaches every message
+              of ATP_Store on an ASCII console, a closed console and a UTF-8 console with a lone surrogate in the
+              operation label; true iff any call raised.
+
 (floats are read through their shortest repr: 0.1 = 1/10.)  The module is the one the harness imported from the
 tree under test (`operon_ai.state.metabolism`, checked to live under the repository root).
 
@@ -142,8 +151,131 @@ def _chain(fn, module, cls):
         return out, _state_assigned(node.orelse, module)
 
 
+def _nonzero_test(test, den: str, positive: bool) -> bool:
+    """does `test` being true (positive=True) / false (positive=False) imply `den != 0`?"""
+    if positive:
+        if isinstance(test, ast.Name):
+            return test.id == den
+        if isinstance(test, ast.BoolOp) and isinstance(test.op, ast.And):
+            return any(_nonzero_test(v, den, True) for v in test.values)
+        if isinstance(test, ast.UnaryOp) and isinstance(test.op, ast.Not):
+            return _nonzero_test(test.operand, den, False)
+        if isinstance(test, ast.Compare) and len(test.ops) == 1:
+            l, op, r = test.left, test.ops[0], test.comparators[0]
+            zero = lambda n: isinstance(n, ast.Constant) and not isinstance(n.value, bool) and n.value == 0
+            name = lambda n: isinstance(n, ast.Name) and n.id == den
+            if name(l) and zero(r):
+                return isinstance(op, (ast.Gt, ast.NotEq))
+            if zero(l) and name(r):
+                return isinstance(op, (ast.Lt, ast.NotEq))
+        return False
+    if isinstance(test, ast.BoolOp) and isinstance(test.op, ast.Or):
+        return any(_nonzero_test(v, den, False) for v in test.values)
+    if isinstance(test, ast.UnaryOp) and isinstance(test.op, ast.Not):
+        return _nonzero_test(test.operand, den, True)
+    if isinstance(test, ast.Compare) and len(test.ops) == 1:
+        l, op, r = test.left, test.ops[0], test.comparators[0]
+        zero = lambda n: isinstance(n, ast.Constant) and not isinstance(n.value, bool) and n.value == 0
+        name = lambda n: isinstance(n, ast.Name) and n.id == den
+        if name(l) and zero(r):
+            return isinstance(op, (ast.Eq, ast.LtE))
+        if zero(l) and name(r):
+            return isinstance(op, (ast.Eq, ast.GtE))
+    return False
+
+
+def _upd_guards(fn):
+    """(g1, g2) for the two true divisions of _update_state: the one inside the debt-term statement (g2) and the other (g1)"""
+    found = []        # (division node, guarded, inside a `ratio -= …`/`ratio = ratio - …` statement)
+
+    def assigned_between(stmts, den):
+        return any(isinstance(n, (ast.Assign, ast.AugAssign, ast.AnnAssign)) and any(
+            isinstance(t, ast.Name) and t.id == den for t in (n.targets if isinstance(n, ast.Assign) else [n.target]))
+            for st in stmts for n in ast.walk(st))
+
+    def visit(stmts, guards):
+        for st in stmts:
+            if isinstance(st, ast.If):
+                scan_expr(st.test, guards, False)
+                visit(st.body, guards + [(st.test, True)])
+                visit(st.orelse, guards + [(st.test, False)])
+            elif isinstance(st, (ast.For, ast.While, ast.Try, ast.With, ast.FunctionDef, ast.Match)):
+                raise Unrecognised(f"{type(st).__name__} in _update_state")
+            else:
+                debt_stmt = (isinstance(st, ast.AugAssign) and isinstance(st.op, ast.Sub)) or \
+                    (isinstance(st, ast.Assign) and isinstance(st.value, ast.BinOp) and isinstance(st.value.op, ast.Sub))
+                scan_expr(st, guards, debt_stmt)
+
+    def scan_expr(node, guards, debt_stmt):
+        for n in ast.walk(node):
+            if isinstance(n, ast.IfExp):
+                raise Unrecognised("conditional expression in _update_state")
+            if isinstance(n, ast.BinOp) and isinstance(n.op, (ast.Div, ast.FloorDiv, ast.Mod)):
+                if isinstance(n.right, ast.Constant) and isinstance(n.right.value, (int, float)) and n.right.value != 0:
+                    continue
+                if not isinstance(n.right, ast.Name):
+                    raise Unrecognised(f"division by {ast.unparse(n.right)[:40]}")
+                den = n.right.id
+                ok = any(_nonzero_test(t, den, pos) for (t, pos) in guards)
+                found.append((den, ok, debt_stmt))
+    visit(fn.body, [])
+    dens = {d for d, _, _ in found}
+    if len(dens) != 1:
+        raise Unrecognised(f"divisions by {sorted(dens)}")
+    den = dens.pop()
+    if assigned_between([st for st in fn.body if isinstance(st, ast.If)], den):
+        raise Unrecognised("capacity variable re-assigned under a condition")
+    base = [ok for _, ok, debt in found if not debt]
+    debt = [ok for _, ok, debt in found if debt]
+    if len(base) != 1 or len(debt) != 1:
+        raise Unrecognised(f"{len(base)} ratio divisions, {len(debt)} debt-term divisions")
+    return base[0], debt[0]
+
+
+def _console_failures_escape(module) -> bool:
+    """run every message-producing path of a loud store on consoles that cannot show the messages"""
+    import io
+    import sys
+    E = module.EnergyType
+
+    def script(label):
+        a = module.ATP_Store(budget=10, gtp_budget=2, nadh_reserve=3, max_debt=20, silent=False)
+        b = module.ATP_Store(budget=10, silent=False)
+        yield lambda: a.consume(12, label)                         # NADH top-up message
+        yield lambda: a.consume(5, label, allow_debt=True)        # debt message, state change message
+        yield lambda: a.consume(1, label)                          # STARVING gate message
+        yield lambda: a.consume(500, label, priority=9)           # refusal message
+        yield lambda: a.apply_debt_interest()
+        yield lambda: a.regenerate(30)                             # debt paid message, state change
+        yield lambda: a.enter_dormancy()
+        yield lambda: a.consume(1, label)                          # DORMANT gate message
+        yield lambda: a.exit_dormancy()
+        yield lambda: a.regenerate(3, E.NADH)
+        yield lambda: a.consume(1, label)
+        yield lambda: a.convert_nadh_to_atp(1)
+        yield lambda: a.transfer_to(b, 0)
+        yield lambda: b.transfer_to(a, 1)
+        yield lambda: a.reset()
+    consoles = [("ascii", "op"), ("closed", "op"), ("utf-8", "\ud800")]
+    real = sys.stdout
+    try:
+        for enc, label in consoles:
+            st = io.TextIOWrapper(io.BytesIO(), encoding="ascii" if enc == "ascii" else "utf-8", errors="strict")
+            if enc == "closed":
+                st.close()
+            sys.stdout = st
+            for call in script(label):
+                try:
+                    call()
+                except Exception:  # noqa
+                    return True
+    finally:
+        sys.stdout = real
+    return False
+
+
 def extract_facts(repo: Path) -> dict:
-    names = ["debtWeight", "chain"]
+    names = ["debtWeight", "chain", "updGuards", "consoleFailuresEscape"]
     try:
         module = load_module(repo)
         cls = module.ATP_Store
@@ -162,6 +294,8 @@ def extract_facts(repo: Path) -> dict:
             facts[name] = Unrecognised(repr(e))
     guard("debtWeight", lambda: _debt_weight(fn, module, cls))
     guard("chain", lambda: _chain(fn, module, cls))
+    guard("updGuards", lambda: _upd_guards(fn))
+    guard("consoleFailuresEscape", lambda: _console_failures_escape(module))
     return facts
 
 
@@ -182,6 +316,17 @@ def render(facts: dict) -> str:
         items = ", ".join(f'("{op}", ({v.numerator}, {v.denominator}), "{st}")' for (op, v, st) in ch[0])
         lines.append(f"def chain : List (String × (Nat × Nat) × String) := [{items}]")
         lines.append(f'def elseState : String := "{ch[1]}"')
+    g = facts.get("updGuards", Unrecognised("not extracted"))
+    lines.append("/-- `_update_state`: (the ratio division runs only with a non-zero capacity, the debt-term division runs only with a "
+                 "non-zero capacity) -/")
+    lines.append("def updGuards : Option (Bool × Bool) := "
+                 + (f"none  -- UNRECOGNISED: {str(g)[:100]}" if isinstance(g, Unrecognised)
+                    else f"some ({str(bool(g[0])).lower()}, {str(bool(g[1])).lower()})"))
+    c = facts.get("consoleFailuresEscape", Unrecognised("not evaluated"))
+    lines.append("/-- evaluated on the real class: does a console that cannot show a message (ASCII / closed stdout, lone surrogate in "
+                 "the label) make any operation of a loud store raise? -/")
+    lines.append("def consoleFailuresEscape : Bool := "
+                 + (f"true  -- UNRECOGNISED: {str(c)[:100]}" if isinstance(c, Unrecognised) else str(bool(c)).lower()))
     lines += ["", "end Operon.Gen.Metabolism", ""]
     return "\n".join(lines)
 
